@@ -511,7 +511,7 @@ struct ShardOutcome {
 }
 
 fn spawn_worker(tier: Tier, seed: u64, shard: usize, start: usize, progress: &std::path::Path, single: bool) -> std::process::Output {
-    let exe = std::env::current_exe().expect("exe");
+    let exe = crate::eng::self_exe();
     let mut c = std::process::Command::new(exe);
     c.arg("worker").arg("C29").arg(tier.name()).arg(seed.to_string()).arg(shard.to_string()).arg(SHARDS.to_string()).arg(start.to_string()).arg(progress);
     if single {
